@@ -91,3 +91,87 @@ Definition exp_args_nonpos (env : list R) (e : expr) : Prop :=
 
 Definition intermediates_within (B : R) (env : list R) (e : expr) : Prop :=
   forall s, In s (evaluated env e) -> Rabs (eval env s) <= B.
+
+(* ---- evaluation with IEEE-754 style overflow: a result of magnitude > M becomes +-infinity,
+        infinities propagate, indeterminate forms (inf - inf, 0 * inf, inf / inf, x / 0, ln of a
+        non-positive number, trigonometric functions of inf) give NaN.  No rounding is modelled.
+        Conservative on purpose: whatever IEEE arithmetic would turn into NaN is NaN here, and some
+        more (x / 0, ln 0).  Used to state "no overflow, no NaN" independently of how a stable
+        formulation is written (see Scalar/Ieee.v). ---- *)
+Inductive xr := XF (r : R) | XPinf | XNinf | XNaN.
+
+Definition rnd (M r : R) : xr :=
+  if Rlt_dec M r then XPinf else if Rlt_dec r (- M) then XNinf else XF r.
+
+Definition xneg (a : xr) : xr :=
+  match a with XF r => XF (- r) | XPinf => XNinf | XNinf => XPinf | XNaN => XNaN end.
+
+Definition xadd (M : R) (a b : xr) : xr :=
+  match a, b with
+  | XF r, XF s => rnd M (r + s)
+  | XNaN, _ | _, XNaN => XNaN
+  | XPinf, XNinf | XNinf, XPinf => XNaN
+  | XPinf, _ | _, XPinf => XPinf
+  | XNinf, _ | _, XNinf => XNinf
+  end.
+
+Definition xsign_mul (pos : bool) (r : R) : xr :=   (* (+-inf) * r *)
+  if Rlt_dec 0 r then (if pos then XPinf else XNinf)
+  else if Rlt_dec r 0 then (if pos then XNinf else XPinf) else XNaN.
+
+Definition xmul (M : R) (a b : xr) : xr :=
+  match a, b with
+  | XF r, XF s => rnd M (r * s)
+  | XNaN, _ | _, XNaN => XNaN
+  | XPinf, XF r | XF r, XPinf => xsign_mul true r
+  | XNinf, XF r | XF r, XNinf => xsign_mul false r
+  | XPinf, XPinf | XNinf, XNinf => XPinf
+  | XPinf, XNinf | XNinf, XPinf => XNinf
+  end.
+
+Definition xdiv (M : R) (a b : xr) : xr :=
+  match a, b with
+  | XNaN, _ | _, XNaN => XNaN
+  | XF r, XF s => if Req_EM_T s 0 then XNaN else rnd M (r / s)
+  | XF _, (XPinf | XNinf) => XF 0
+  | XPinf, XF s => if Req_EM_T s 0 then XNaN else xsign_mul true s
+  | XNinf, XF s => if Req_EM_T s 0 then XNaN else xsign_mul false s
+  | (XPinf | XNinf), (XPinf | XNinf) => XNaN
+  end.
+
+Definition xfun (M : R) (f : fn1) (a : xr) : xr :=
+  match f, a with
+  | _, XNaN => XNaN
+  | Fexp, XF r => rnd M (exp r) | Fexp, XPinf => XPinf | Fexp, XNinf => XF 0
+  | Fln, XF r => if Rlt_dec 0 r then rnd M (ln r) else XNaN | Fln, XPinf => XPinf | Fln, XNinf => XNaN
+  | Ftanh, XF r => XF (tanh r) | Ftanh, XPinf => XF 1 | Ftanh, XNinf => XF (-1)
+  | Fsqrt, XF r => if Rle_dec 0 r then XF (sqrt r) else XNaN | Fsqrt, XPinf => XPinf | Fsqrt, XNinf => XNaN
+  | Fabs, XF r => XF (Rabs r) | Fabs, _ => XPinf
+  | (Fsin | Fcos | Ftan), XF r => rnd M (fn1_sem f r) | (Fsin | Fcos | Ftan), _ => XNaN
+  end.
+
+(* comparisons: false as soon as a NaN is involved *)
+Definition xcmp (c : cmpop) (a b : xr) : bool :=
+  match a, b with
+  | XF r, XF s => if cmp_dec c r s then true else false
+  | XNaN, _ | _, XNaN => false
+  | XPinf, XPinf | XNinf, XNinf => match c with Cle | Cge => true | _ => false end
+  | XPinf, _ | _, XNinf => match c with Cgt | Cge => true | _ => false end
+  | XNinf, _ | _, XPinf => match c with Clt | Cle => true | _ => false end
+  end.
+
+Fixpoint xeval (M : R) (env : list R) (e : expr) : xr :=
+  match e with
+  | EVar n => rnd M (nth n env 0)
+  | EInt z => rnd M (IZR z)
+  | EFrac p q => rnd M (IZR p / IZR q)
+  | ENeg a => xneg (xeval M env a)
+  | EAdd a b => xadd M (xeval M env a) (xeval M env b)
+  | ESub a b => xadd M (xeval M env a) (xneg (xeval M env b))
+  | EMul a b => xmul M (xeval M env a) (xeval M env b)
+  | EDiv a b => xdiv M (xeval M env a) (xeval M env b)
+  | EPow a b => XNaN
+  | EFun f a => xfun M f (xeval M env a)
+  | ECmp c a b => XF (if xcmp c (xeval M env a) (xeval M env b) then 1 else 0)
+  | EIf c a b t e => if xcmp c (xeval M env a) (xeval M env b) then xeval M env t else xeval M env e
+  end.
